@@ -25,9 +25,13 @@ def model_check(ctx):
             _need_cov(r, ["Step", "Finish"], c)
 
 
-def _eff_case(cid, fn, pts, wt):
-    f = np.array(pts, dtype=float).reshape(len(pts), len(wt))
-    w = np.array(wt, dtype=float)
+def _eff_case(cid, fn, pts, wt, dtype=float, wdiv=1, wshape=None):
+    """the function receives the points in `dtype` and the weights wt / wdiv (a common positive factor, so the weighted
+    order of every objective - all TLC needs - is that of the integer weights)"""
+    f = np.array(pts, dtype=dtype).reshape(len(pts), len(wt))
+    w = np.array(wt, dtype=float) / wdiv
+    if wshape is not None:
+        w = w.reshape(wshape)
     f0 = f.copy(); w0 = w.copy()
     try:
         mask = fn(f, w, True)
@@ -113,6 +117,16 @@ def run(ctx):
             pts = [[v[j] * sg[j] for j in range(nobj)] for v in val]
             cid += 1
             allc.append(_eff_case(cid, is_pareto_efficient, pts, wt))
+    # (D) argument forms: integer / small-integer point matrices, fractional weights (wt / 2, / 4, / 8 are exact in binary),
+    # weights as a column or row matrix
+    for k in range(240 if thorough else 80):
+        nobj = rng.choice([2, 2, 3])
+        npt = rng.choice([2, 3, 5, 8, 13])
+        pts = [[rng.randrange(6) for _ in range(nobj)] for _ in range(npt)]
+        wt = [rng.choice([-5, -3, -2, -1, 1, 2, 3, 5]) for _ in range(nobj)]
+        cid += 1
+        allc.append(_eff_case(cid, is_pareto_efficient, pts, wt, dtype=[int, np.int8, np.int32, float, np.float32][k % 5],
+                              wdiv=[8, 4, 2, 1][k % 4], wshape=[None, (nobj, 1), (1, nobj)][k % 3]))
     # dominance: exhaustive small + random
     vals = [-1, 0, 1]
     for o1 in itertools.product(vals, repeat=2):
